@@ -229,5 +229,10 @@ def jobs(tier):
     return js
 
 
+def all_jobs(tier):
+    from . import extra_misc
+    return jobs(tier) + extra_misc.jobs_for('C05', tier)
+
+
 def main(report, tier):
-    return summarize(report, runner.run_tasks(jobs(tier)), 'C05')
+    return summarize(report, runner.run_tasks(all_jobs(tier)), 'C05')
